@@ -75,3 +75,14 @@ PROPS["C15"] = dict(level="exploration",
     units=[Unit("c15_mutex", "harness/c15_mutex.cpp", cfg="d17", max_size=120, pin=True, shards=8,
                 quick=(30, 400000), thorough=(480, 20000000))],
     assumptions=_DS_ASSUME)
+
+_EF_MT = Unit("exprfuzz_mt", "harness/exprfuzz_mt.cpp", cfg="dg17", extra_src=["exprfuzz/pinned.cpp"] + _EF_QUICK, max_size=140, pin=True, shards=8,
+              quick=(40, 300000), thorough=(600, 20000000))
+for _p in ("C01", "C02", "C04"):
+    PROPS[_p]["units"].append(_EF_MT)
+    PROPS[_p]["assumptions"] = PROPS[_p]["assumptions"] + _DS_ASSUME
+
+PROPS["C06"] = dict(level="exploration",
+    units=[Unit("c06_sched", "harness/c06_sched.cpp", cfg="d17", max_size=120, pin=True, shards=8,
+                quick=(30, 400000), thorough=(480, 20000000))],
+    assumptions=_DS_ASSUME + ["std::mutex / condition_variable / thread inside the contexts are modelled by detsched (spurious wake-ups are generated)"])
